@@ -67,6 +67,10 @@ def oracle(case, line):
     ops = [o.split() for o in case.split(",") if o.strip()]
     parts = line.split(" ; ") if line != "-" else []
     prev = init_state()
+    unl = {}      # slave list -> [window start, payload] while the ROOT is unlimited and the slave rate > 0
+    acct = {}     # list -> [budget, payload] while the root is limited
+    starve = {}   # slave list with rate 0 under a limited root -> consecutive ticks with a node kept inactive
+    flagged = set()
     for i, part in enumerate(parts):
         if part.startswith("ERR:internal"):
             tag = part.split(":")[-1]
@@ -138,14 +142,64 @@ def oracle(case, line):
                 for li, L in enumerate(st["lists"]):
                     if li < len(prev["lists"]):
                         P = prev["lists"][li]
-                        lim = cnt * L["rate"] // 10**6
+                        lim = cnt * L["rate"] // 10**6 if L["rate"] else grant   # rate 0 = unlimited: shares the parent's quota (5638f7b)
                         if held(L) > held(P) + min(lim, grant):
                             bad.append(("tick-overgrant", "list %d got more than elapsed*rate (%d > %d + %d) %s" % (
                                 li, held(L), held(P), min(lim, grant), where)))
                         # reactivation: an update leaves either no inactive node or no unallocated quota
                         if L["e"] and L["uu"] != P["uu"] and L["I"] and L["ua"] > 0:
                             bad.append(("not-reactivated", "list %d was updated, has unallocated quota but kept nodes inactive %s" % (li, where)))
+        if valid:
+            k = op[0]
+            root_on = prev["lists"][0]["e"] == 1
+            # --- windows
+            for li, L in enumerate(st["lists"]):
+                P = prev["lists"][li] if li < len(prev["lists"]) else None
+                if li >= 1 and st["rate"] == 0 and L["rate"] > 0:
+                    if P is None or prev["rate"] != 0 or P["rate"] != L["rate"] or li not in unl:
+                        unl[li] = [st["now"], 0]
+                else:
+                    unl.pop(li, None)
+                if st["lists"][0]["e"] == 1:
+                    if P is None or not root_on or li not in acct:
+                        acct[li] = [held(L), 0]
+                else:
+                    acct.pop(li, None)
+            if k == "T" and root_on:
+                grant_t = (st["now"] - prev["lt"]) * prev["rate"] // 10**6
+                for li, L in enumerate(st["lists"]):
+                    if li in acct and li < len(prev["lists"]):
+                        acct[li][0] += min((st["now"] - prev["lt"]) * L["rate"] // 10**6, grant_t) if L["rate"] else grant_t
+                    # a rate-0 slave is reached by the cursor at least once every len(lists) ticks and then holds
+                    # the grant (uu > 0); holding nothing for longer than that is the starvation of 5638f7b
+                    if li >= 1 and li < len(prev["lists"]) and L["rate"] == 0 and prev["lists"][li]["I"] and L["I"] and grant_t >= 1 and held(L) == 0:
+                        starve[li] = starve.get(li, 0) + 1
+                        if starve[li] >= len(st["lists"]) + 2 and "starve" not in flagged:
+                            flagged.add("starve")
+                            bad.append(("slave-rate0-starved", "slave list %d has rate 0 (= unlimited in Throttle's API) under a limited root: "
+                                        "its deactivated node got no quota over %d ticks %s" % (li, starve[li], where)))
+                    else:
+                        starve.pop(li, None)
+            if k == "X" and out.startswith("x=") and int(op[1]) < len(prev["lists"]):
+                li, n = int(op[1]), int(out[2:])
+                L = st["lists"][li]
+                if li in unl and prev["rate"] == 0 and li >= 1:
+                    unl[li][1] += n
+                    bound = L["rate"] * (st["now"] - unl[li][0]) // 10**6 + 65536 * max(1, len(L["A"]) + len(L["I"])) + 2 * L["rate"]
+                    if unl[li][1] > bound and "unl" not in flagged:
+                        flagged.add("unl")
+                        bad.append(("slave-limit-ignored-root-unlimited",
+                                    "slave list %d limited to %d B/s moved %d payload bytes in %d us while the root is unlimited (bound incl. burst: %d) %s" % (
+                                        li, L["rate"], unl[li][1], st["now"] - unl[li][0], bound, where)))
+                if li in acct and prev["lists"][li]["e"]:
+                    acct[li][1] += n
+                    if acct[li][1] + held(L) > acct[li][0] and "rb" not in flagged:
+                        flagged.add("rb")
+                        bad.append(("rate-bound", "list %d: payload %d + held %d exceeds burst + granted %d since the root limit was set %s" % (
+                            li, acct[li][1], held(L), acct[li][0], where)))
         prev = st
+    # a real violation outranks a known finding
+    bad.sort(key=lambda b: b[0] in ("slave-limit-ignored-root-unlimited",))
     return bad
 
 
@@ -198,7 +252,7 @@ def run(rep, tier, seed, replay):
                               case=case, model=(pm[j] if j < len(pm) else "<end>"), impl=(pi[j] if j < len(pi) else "<end>"),
                               theorem="correspondence C12 (throttle op trace)", found_input=False)
         else:
-            for kl, text in viol[:1]:
+            for kl, text in viol[:2]:
                 rep.violation(text, case=case, model=m[-1500:], impl=o[-1500:], theorem="property oracle C12", klass=kl)
     if not coq["ok"]:
         rep.violation("C12 proof obligations no longer check (%d/%d): %s %s" % (
